@@ -702,7 +702,17 @@ class NumpyModel:
                     interp.emit('degree_mismatch', node, left=ml, right=mr, op=o)
             if o in ('in', 'not in'):
                 interp.emit('membership', node, item=l, container=r, op=o)
-            out = AV(ty='ndarray' if is_arr else 'bool', deps=d, cmp=(o, l, r, ltext, rtext), dtype='bool',
+            lit_out = None
+            if is_arr and o in PYCMP:
+                for a_, b_, swap in ((l, r, False), (r, l, True)):
+                    if a_.litconst is not None and has_const(b_) and isinstance(cval(b_), (int, float)) and not isinstance(cval(b_), bool):
+                        try:
+                            f_ = (lambda x: PYCMP[o](cval(b_), x)) if swap else (lambda x: PYCMP[o](x, cval(b_)))
+                            lit_out = ('c', [tuple(bool(f_(x)) for x in row) if isinstance(row, (tuple, list)) else bool(f_(row)) for row in a_.litconst[1]])
+                        except Exception:
+                            lit_out = None
+                        break
+            out = AV(ty='ndarray' if is_arr else 'bool', deps=d, cmp=(o, l, r, ltext, rtext), dtype='bool', litconst=lit_out,
                      axes=l.axes if l.axes is not None else r.axes, store='fresh' if is_arr else None)
             if l.ty == 'Series' or r.ty == 'Series':
                 out = out.w(ty='Series')
@@ -900,6 +910,10 @@ class NumpyModel:
             for k_, it_ in enumerate(items):
                 if it_.ty == 'slice' and it_.lo is None and it_.hi is None and it_.step is not None and has_const(it_.step) and cval(it_.step) == -1:
                     out = flip_axis(out.w(flipped=out.flipped if out.flipped is not None else base.flipped, filled=out.filled or base.filled), k_)
+        if base.litconst is not None and len(items) == 1 and items[0].litconst is not None and items[0].dtype == 'bool':
+            rows, mask = base.litconst[1], items[0].litconst[1]
+            if len(rows) == len(mask) and all(isinstance(m, bool) for m in mask):
+                out = out.w(litconst=('c', [r_ for r_, m in zip(rows, mask) if m]))
         if fancy:
             out = out.w(store='fresh', fresh=True, prov=None)
         else:
